@@ -88,7 +88,22 @@ Section Guards.
     | _ :: rest => access_safe_loop pred rest
     end.
 
+  (* the shape the grammar gives every attribute_access: it starts with ".field" and an
+     index only follows a field (attribute_access: ID (DOT ID array?)+) *)
+  Fixpoint no_double_index (es : list pelem) : bool :=
+    match es with
+    | e1 :: ((e2 :: _) as rest) => negb (is_index e1 && is_index e2) && no_double_index rest
+    | _ => true
+    end.
+
+  Definition grammar_path (es : list pelem) : bool :=
+    match es with
+    | PF _ :: _ => no_double_index es
+    | _ => false
+    end.
+
   Definition access_safe (T : tdef) (v : name) (es : list pelem) : bool :=
+    grammar_path es &&
     match assoc v (td_vars T) with
     | None => true
     | Some (TArray _ _) => false
